@@ -704,3 +704,41 @@ def materialise_dataclass_init(trees: Dict[str, ast.Module]) -> int:
             c.body.append(fn)
             n += 1
     return n
+
+
+# --------------------------------------------------------------------------- annotated assignments inside functions
+
+def plain_assignments(trees: Dict[str, ast.Module]) -> int:
+    """Inside function bodies ``x: T = v`` is ``x = v`` and a bare ``x: T`` is nothing (annotations of locals and attributes are
+    not evaluated for locals and have no effect at run time): the rules read assignments in one form.  Module and class level
+    annotated assignments are left alone (they are indexed as such; dataclass fields live there).  -> number rewritten"""
+    n = [0]
+
+    class T(ast.NodeTransformer):
+        def __init__(self):
+            self.depth = 0
+
+        def visit_FunctionDef(self, node):
+            self.depth += 1
+            self.generic_visit(node)
+            self.depth -= 1
+            return node
+        visit_AsyncFunctionDef = visit_FunctionDef
+
+        def visit_ClassDef(self, node):
+            d, self.depth = self.depth, 0
+            self.generic_visit(node)
+            self.depth = d
+            return node
+
+        def visit_AnnAssign(self, node):
+            if self.depth == 0:
+                return node
+            n[0] += 1
+            if node.value is None:
+                return ast.copy_location(ast.Pass(), node)
+            return ast.copy_location(ast.Assign(targets=[node.target], value=node.value), node)
+    for t in trees.values():
+        T().visit(t)
+        ast.fix_missing_locations(t)
+    return n[0]
